@@ -11,6 +11,11 @@ COMMON_ASSUMPTIONS = [
     "libp2p, gossipsub, kubo/bitswap and the rendezvous server are not part of the simulation",
 ]
 
+# non-test files added to the repo module through the overlay for every check (observation accessors, //go:build verif)
+GLOBAL_OVERLAY = {
+    "internal/queue/zz_verif_access.go": "harness/extra/queue_access.go",
+}
+
 CHECKS = {
     "C18": {
         "pkg": "pkg/protoio",
@@ -205,12 +210,16 @@ CHECKS = {
         "parts": [
             {"pkg": "pkg/secretstore", "test": "TestVerifC05a",
              "quick": {"procs": 16, "checks_per_proc": 60}, "thorough": {"procs": 32, "checks_per_proc": 600}},
+            {"pkg": ".", "test": "TestVerifC05b", "proc_timeout": "60m",
+             "quick": {"procs": 16, "checks_per_proc": 40}, "thorough": {"procs": 32, "checks_per_proc": 500}},
         ],
         "rule": "part (a): one case = (group type, window, sender history of 0-8 messages, announcement taken at a drawn counter) x "
                 "{right recipient; another party in the same group; right recipient in another group; another claimed sender; every "
                 "single-bit flip of the ciphertext; truncated/extended/empty blobs}, each attempt on a clone of the party's durable "
-                "state; non-trivial = always; distinct = distinct hash of the trace.",
-        "required_probes": ["right_recipient_registered", "same_keys_other_group"],
+                "state. part (b): groups of 2-4 members with 1-2 devices in seeded join/activation orders over the simulated network "
+                "(the C08 macro scenario) with the distribution oracle at the fixpoint. non-trivial = always (a) / a simulator-chosen "
+                "delivery happened (b); distinct = distinct hash of the trace.",
+        "required_probes": ["right_recipient_registered", "same_keys_other_group", "chain_keys_everywhere"],
         "assumptions": COMMON_ASSUMPTIONS,
     },
     "C11": {
@@ -288,5 +297,24 @@ CHECKS = {
                 "distinct = distinct hash of the trace.",
         "required_probes": ["restored_and_compared", "invalid_archive_rejected"],
         "assumptions": COMMON_ASSUMPTIONS,
+    },
+    "C08": {
+        "level": "exploration",
+        "proc_timeout": "60m",
+        "parts": [
+            {"pkg": ".", "test": "TestVerifC08M",
+             "quick": {"procs": 24, "checks_per_proc": 40}, "thorough": {"procs": 48, "checks_per_proc": 500}},
+            {"pkg": ".", "test": "TestVerifC08C",
+             "instrument": ["store_message.go", "store_message_queue.go", "group_context.go", "internal/queue"],
+             "quick": {"procs": 24, "checks_per_proc": 25}, "thorough": {"procs": 48, "checks_per_proc": 300}},
+        ],
+        "rule": "one case = 2-3 real devices of a multi-member group (optionally two devices of one member) that activate their group "
+                "context and send 1-8 messages at seeded points while the simulator chooses every delivery of entries and chain-key "
+                "announcements (order, batching, late connection), then anti-entropy to a fixpoint; part C additionally "
+                "interleaves the goroutines of the message pipeline at every instrumented lock/unlock/select with the seeded "
+                "cooperative scheduler (2 devices, 1-3 messages). non-trivial = at least one simulator-chosen delivery; distinct = "
+                "distinct hash of the trace.",
+        "required_probes": ["chain_keys_everywhere", "messages_checked", "message_sealed_before_announcement"],
+        "assumptions": COMMON_ASSUMPTIONS + ["part C: schedules are explored at the instrumented points of store_message.go, group_context.go and internal/queue; orbit-db reactions are atomic steps"],
     },
 }
